@@ -90,11 +90,16 @@ def simulated(files, protos, workers, num, depth, seed, timeout=900):
 def to_schedule(c):
     """[w, step, p] triples for c14.run_schedule: what is on disk first, then all accepts, then the interleaving."""
     h = []
-    if c["f"] != "none":
+    if c["f"] == "late":
+        # worker 1 looked while there was no cache file; THEN a request served alone wrote the complete one
+        h += [[1, "accept", c["ps"][0]], [1, "advance_to_gen", ""], [0, "prime", "G"]]
+    elif c["f"] != "none":
         h.append([0, "prime", "G"])
     if c["f"] in ("cut0", "cut1", "zero"):
         h.append([0, c["f"], ""])
     for i, p in enumerate(c["ps"]):
+        if c["f"] == "late" and i == 0:
+            continue
         h.append([i + 1, "accept", p])
     for w, step in c["h"]:
         h.append([w, step, ""])
@@ -117,3 +122,61 @@ def close():
     ar = _AR.pop("ar", None)
     if ar is not None:
         ar.close()
+
+
+def run_all(cases, procs=None):
+    """Replay every case in worker PROCESSES of their own (harness/race_worker.py).  A worker that dies while serving a
+    case yields a trace saying so for that case (the clients got no complete response) and the rest is handed to a fresh
+    worker."""
+    import os
+    import subprocess
+    import sys
+    import tempfile
+    procs = procs or int(os.environ.get("VERIF_PROCS") or 16)
+    procs = max(1, min(procs, len(cases)))
+    sd = tempfile.mkdtemp(prefix="verif-raceq-", dir=tlc.scratch_root())
+    results = {}
+    pending = [[(i, c) for i, c in enumerate(cases) if i % procs == k] for k in range(procs)]
+    rounds = 0
+    try:
+        while any(pending):
+            rounds += 1
+            if rounds > 200:
+                raise core.MachineryError("race workers keep dying: more than 200 restarts")
+            running = []
+            for k, sl in enumerate(pending):
+                if not sl:
+                    continue
+                cf, of = os.path.join(sd, "c%d_%d.json" % (k, rounds)), os.path.join(sd, "o%d_%d.ndjson" % (k, rounds))
+                with open(cf, "w") as fp:
+                    json.dump(sl, fp)
+                pr = subprocess.Popen([sys.executable, "-m", "harness.race_worker", cf, of], stdout=subprocess.DEVNULL,
+                                      stderr=subprocess.PIPE)
+                running.append((k, sl, of, pr))
+            for k, sl, of, pr in running:
+                _o, err = pr.communicate(timeout=3000)
+                started = None
+                if os.path.exists(of):
+                    for line in open(of):
+                        r = json.loads(line)
+                        if "start" in r:
+                            started = r["start"]
+                        else:
+                            results[r["done"]] = r["trace"]
+                            started = None
+                rest = [(i, c) for i, c in sl if i not in results]
+                if pr.returncode != 0:
+                    if started is None or pr.returncode > 0:
+                        raise core.MachineryError("race worker failed (rc=%s): %s" % (pr.returncode, err.decode()[-1500:]))
+                    c = dict(cases[started])
+                    results[started] = {
+                        "id": "race %s (serving process killed by signal %d)" % (c["f"], -pr.returncode),
+                        "events": [{"ev": "resp", "w": 1, "p": c["ps"][0], "same": False, "ok": False,
+                                    "raw": "the serving process was killed by signal %d" % -pr.returncode},
+                                   {"ev": "end", "served": 0, "expected": len(c["ps"]), "alive": False, "zombies": 0}],
+                        "case": {"kind": "race", "f": c["f"], "ps": c["ps"], "h": c["h"]}}
+                    rest = [(i, cc) for i, cc in rest if i != started]
+                pending[k] = rest
+    finally:
+        shutil.rmtree(sd, ignore_errors=True)
+    return [results[i] for i in range(len(cases))]
